@@ -41,6 +41,7 @@ var recSchnorrVerify = ev.New("C11", "schnorr-verify",
 		"or with one change: r or s replaced by a boundary value (p-1,p,p+1,n-1,n,n+1,0,2^256-1), r+p / s+n when they fit 256 bits, bit flip, "+
 		"s negated, message or key changed, nonce/key negation omitted (odd R / odd P), length 63/65; keys given as any-parity points and as "+
 		"x-only bytes incl. x >= p and off-curve; oracle: ParseSignature accepts <=> len=64, r<p, s<n; Verify <=> BIP340 reference; "+
+		"the same (r, s) assembled with NewSignature from field values in three internal representations (normalised, -(-r), (r-d)+d) serialises to the same bytes and gets the same verdict; "+
 		"non-trivial = anything but an intact signature with random components; distinct by (sig,msg,key)",
 	"valid", "r>=p", "s>=n", "r-boundary", "s-boundary", "mutated", "odd-R", "odd-P", "wrong-key", "bad-length")
 
@@ -186,6 +187,34 @@ func checkSchnorrBytes(t fataler, raw, msg, keyBytes, pkx []byte, labelValid boo
 	}
 	if got := sg.Verify(append([]byte(nil), msg...), key); got != want {
 		t.Fatalf("schnorr Verify(sig=%x, msg=%x, key=%x) = %v, BIP340 reference = %v", raw, msg, keyBytes, got, want)
+	}
+	// the same (r, s) handed to the constructor as field values: a FieldVal that comes out of field
+	// arithmetic is the same element whatever its internal (not yet normalised) representation
+	var sv btcec.ModNScalar
+	sv.SetByteSlice(raw[32:])
+	for form := 0; form < 3; form++ {
+		var rv, d, negD btcec.FieldVal
+		rv.SetByteSlice(raw[:32])
+		switch form {
+		case 1:
+			rv.Negate(1).Negate(2) // -(-r)
+		case 2:
+			d.SetByteSlice(msg) // (r - d) + d
+			d.Normalize()
+			negD.Set(&d).Negate(1)
+			rv.Add(&negD).Normalize()
+			rv.Add(&d)
+		}
+		built := schnorr.NewSignature(&rv, &sv)
+		if ser := built.Serialize(); !bytes.Equal(ser, raw) {
+			t.Fatalf("schnorr.NewSignature(r, s).Serialize() = %x for r||s = %x (r given in internal form %d: 0 normalised, 1 -(-r), 2 (r-d)+d)", ser, raw, form)
+		}
+		if !built.IsEqual(sg) {
+			t.Fatalf("schnorr.NewSignature(r, s) differs from the parsed signature %x (r in internal form %d)", raw, form)
+		}
+		if got := built.Verify(msg, key); got != want {
+			t.Fatalf("schnorr.NewSignature(r, s).Verify = %v, BIP340 reference %v (sig=%x msg=%x key=%x, r in internal form %d)", got, want, raw, msg, keyBytes, form)
+		}
 	}
 	// the x-only parsed key must give the same verdict
 	xk, err := schnorr.ParsePubKey(pkx)
